@@ -272,7 +272,7 @@ func init() {
 			return params{
 				"node":              rapid.IntRange(1, pick(timing, 160, 48)).Draw(t, "node"),
 				"sparsity-permille": rapid.SampledFrom([]int{1, 10, 50, 100, 250, 500, 800, 1000}).Draw(t, "sparsity"),
-				"iterations":        rapid.IntRange(1, pick(timing, 4, 2)).Draw(t, "iterations"),
+				"iterations":        rapid.IntRange(1, 4).Draw(t, "iterations"),
 			}
 		},
 		check: func(p params, nq int) string {
@@ -466,7 +466,7 @@ func init() {
 		gen: func(t *rapid.T, nq int, timing bool) params {
 			return params{
 				"particles": drawSize(t, "particles", 0, pick(timing, 1100, 511), 256),
-				"iter":      rapid.IntRange(1, pick(timing, 3, 2)).Draw(t, "iter"),
+				"iter":      rapid.IntRange(1, 3).Draw(t, "iter"),
 			}
 		},
 		check: func(p params, nq int) string {
@@ -562,7 +562,7 @@ func init() {
 			return params{
 				"row":  drawMult(t, "row/16", 16, pick(timing, 128, 64)),
 				"col":  drawMult(t, "col/64", 64, pick(timing, 256, 128)),
-				"iter": rapid.IntRange(1, pick(timing, 3, 2)).Draw(t, "iter"),
+				"iter": rapid.IntRange(1, 3).Draw(t, "iter"),
 			}
 		},
 		check: func(p params, nq int) string {
